@@ -6,6 +6,20 @@
   the code by the metamorphic oracle; the RDFS / OWL-RL closure (owlrl) is a parameter, not verified.
 -/
 import PyshaclProofs.MixinProofs
+import PyshaclProofs.PipelineProofs
 namespace Pyshacl.C14
 export Pyshacl (union_value_nodes union_focus_nodes inoculate_keeps_data inoculate_only_ontology inoculated_congr)
+
+/-- **mix-in / pre-inference = validating the pre-expanded graph** (pipeline level): what `Validator.run` hands to the
+    validation loop is `rules(infer(inoculate(data)))` for every heap content and every mix-in / closure / rule function
+    (owlrl is a parameter), with `inplace` on or off — so validating with the options is validating that graph -/
+theorem validated_graph_is_preexpanded {G} (c : Pipeline.Cfg) (w : Pipeline.Stage → G → G) (h : Pipeline.Heap G) :
+    (Pipeline.exec w h (Pipeline.plan c).1 (Pipeline.plan c).1.length) (Pipeline.plan c).2 = Pipeline.expand c w (h .data) :=
+  Pipeline.validated_graph_is_expansion c w h
+
+/-- without ontology, pre-inference and rules the validated graph is the data graph as handed over -/
+theorem nothing_added_without_options {G} (c : Pipeline.Cfg) (w : Pipeline.Stage → G → G) (h : Pipeline.Heap G)
+    (h1 : c.hasOnt = false) (h2 : c.inference = false) (h3 : c.hasRules = false) :
+    (Pipeline.exec w h (Pipeline.plan c).1 (Pipeline.plan c).1.length) (Pipeline.plan c).2 = h .data := by
+  rw [Pipeline.validated_graph_is_expansion]; simp [Pipeline.expand, h1, h2, h3]
 end Pyshacl.C14
